@@ -134,6 +134,9 @@ func genMalformed(r *rand.Rand, thorough bool, emit func(c, cat string)) {
 			if kind == "http" || kind == "https" || kind == "fasthttp" {
 				via = []string{"get", "post"}[r.Intn(2)]
 			}
+			if kind == "tcp" || kind == "gnet" || kind == "tls" {
+				via = []string{"-", "split1", "split2", "split3"}[r.Intn(4)]
+			}
 			emit(fmt.Sprintf("kind=%s via=%s bytes=%s", kind, via, hexs(b)), kind+"-"+cat)
 		}
 	}
@@ -179,7 +182,11 @@ func runServe(cs string) string {
 		sem <- struct{}{}
 		go func() {
 			defer func() { <-sem; wg.Done() }()
-			res := lfix.exchange(kind, buildQuery(j.id, j.name, j.typ, false, 0), "post", 8*time.Second)
+			via := "post"
+			if kind == "tcp" || kind == "gnet" || kind == "tls" {
+				via = []string{"whole", "split1", "split2", "split3"}[int(j.id)%4]
+			}
+			res := lfix.exchange(kind, buildQuery(j.id, j.name, j.typ, false, 0), via, 8*time.Second)
 			if res.status != "resp" {
 				return
 			}
